@@ -157,6 +157,8 @@ def corpus_cases():
     p = os.path.join(vlib.VERIF, "corpus", "C05")
     if os.path.isdir(p):
         for f in sorted(os.listdir(p)):
+            if not f.endswith(".case"):
+                continue
             for l in open(os.path.join(p, f)):
                 l = l.strip()
                 if l and not l.startswith("#"):
@@ -195,6 +197,10 @@ def run(ck):
             grp = [line(o, list(p), cn, e) for p in itertools.permutations(san)]
             perm_groups.append((len(cases), len(grp)))
             cases += grp
+    # the same verdicts are demanded when the peer presents leaf + intermediate CA (only the root is trusted) and the
+    # INTERMEDIATE carries the expected name: only the leaf's names may count
+    nchain = ck.budget(1200, 20000)
+    cases += ["ncc" + c[2:] for c in cases[ncorp:ncorp + nchain] if c.startswith("nc ")]
     rc, impl, err = ck.run_lines(h, cases)
     rc2, model, err2 = ck.run_lines(drv, cases)
     ck.rules.append("grammar-based (expected name kinds host/email/IPv4/malformed; certificate entries derived from it by 16 mutations "
